@@ -419,6 +419,47 @@ Plan gen_sched_plan(uint64_t run_seed, const GenOpts& o)
     const bool same_family = !shared && r.chance(0.4);
     const bool big = r.chance(0.15);
     if (big && T > 3) T = 2 + (int) r.below(2);
+    // "all solver classes": a share of the runs puts DavidsonSymEigsSolver objects, instantiated directly on the library's
+    // product wrappers (private ones, or ONE shared const wrapper), side by side. They have no operator seam: their yield
+    // points are the API boundaries and the seeded basic-block edges, so edge pre-emption is always on for them.
+    if (o.force_family < 0 ? r.chance(0.12) : o.force_family == F_DAVIDSON)
+    {
+        if (p.edge_gap == 0) p.edge_gap = (long) std::llround(std::pow(10.0, 2.0 + 3.0 * r.real01()));
+        const bool dshared = r.chance(0.6);
+        if (T > 4) T = 2 + (int) r.below(3);
+        WorldSpec w0;
+        for (int t = 0; t < T; t++)
+        {
+            TaskSpec ts;
+            Rng rw = stream(mix64(run_seed, 0xDA71D + (uint64_t) t), "world");
+            if (t == 0 || !dshared)
+            {
+                ts.w.family = F_DAVIDSON;
+                ts.w.scalar = S_DOUBLE;
+                ts.w.n = 16 + (int) rw.below(45);
+                ts.w.mclass = weighted(rw, {{M_RANDOM, 3}, {M_SEPARATED, 3}, {M_SPARSEPAT, 2}, {M_CLUSTERED, 1}});
+                ts.w.variant = rw.chance(0.4) ? 1 : 0;
+                ts.w.scale = 1.0;
+                ts.w.mseed = rw.next();
+                w0 = ts.w;
+            }
+            else
+                ts.w = w0;
+            ts.w.nev = 1 + (int) rw.below(6);
+            ts.w.ncv = std::min(ts.w.n, 10 * ts.w.nev);
+            if (dshared) ts.share = 0;
+            Op c0;
+            c0.kind = OP_COMPUTE;
+            c0.sel = rs.chance(0.5) ? R_LA : R_SA;
+            c0.sort = c0.sel;
+            c0.maxit = 1 + (long) rs.below(12);
+            c0.tol = std::pow(10.0, rs.real(-10.0, -4.0));
+            ts.script.push_back(c0);
+            if (rs.chance(0.3)) { Op c1 = c0; c1.maxit = 1 + (long) rs.below(6); ts.script.push_back(c1); }
+            p.tasks.push_back(ts);
+        }
+        return p;
+    }
     GenOpts g = o;
     g.thorough = false;
     TaskSpec first;
